@@ -34,9 +34,8 @@ ALLOWED_UNTRACKED = {
 # callables that receive a tracked object as an argument (the object escapes; reads inside are tracked because the
 # callee can only use the Env interface)
 ALLOWED_ESCAPES = {
-    "m.matches", "m.touch", "s.onEnter", "s.onFinish", "pattern.resolve", "substituteAuditFiles",
-    "p.createCoreCheckoutStep", "tool.prepare", "CoreSandbox", "PackageMatcher", "r.prepare", "CorePackage",
-    "addTransitiveTools",
+    "m.touch", "s.onEnter", "s.onFinish", "pattern.resolve", "substituteAuditFiles",
+    "p.createCoreCheckoutStep", "tool.prepare", "CoreSandbox", "PackageMatcher", "r.prepare",
 }
 
 
